@@ -37,6 +37,9 @@ EditScenarios(maxLen) == {[kind |-> k, algo |-> a, prog |-> p] : k \in Kinds, a 
 
 \* ---- fetch side
 Src == {"absent", "right256", "right512", "wrong"}
+\* a descriptor may also carry a digest string that is not a digest (truncated, upper-case hex, unregistered
+\* algorithm, bare hex): it names nothing, so nothing may be returned for it
+DescSrc == Src \cup {"malformed"}
 Variants == {"canon", "reordered", "unknown_field"}
 HdrMT == {"absent", "right", "wrong"}
 \* new: manifest.New; reg / ocidir: RegClient.ManifestGet; regplat: ManifestGet of a tag that is an index with
@@ -54,9 +57,9 @@ Forms == {"std", "ref_first", "mt_desc", "mt_desc_first", "size_desc", "size_ent
 FormsOf(via) == IF via = "new" THEN Forms \ {"size_entry"} ELSE IF via = "ocidir" THEN {"std", "size_entry"} ELSE {"std"}
 FetchScenarios ==
   {x \in {[kind |-> k, variant |-> v, desc |-> d, ref |-> r, hdr |-> h, hdrmt |-> m, via |-> via, form |-> f] :
-            k \in Kinds, v \in Variants, d \in Src, r \in Src, h \in Src, m \in HdrMT, via \in Via, f \in Forms}
+            k \in Kinds, v \in Variants, d \in DescSrc, r \in Src, h \in Src, m \in HdrMT, via \in Via, f \in Forms}
      : x.form \in FormsOf(x.via)}
 \* the digest that governs the comparison
 Governing(x) == IF x.desc # "absent" THEN x.desc ELSE IF x.ref # "absent" THEN x.ref ELSE x.hdr
-MayReturn(x) == Governing(x) # "wrong"
+MayReturn(x) == Governing(x) \notin {"wrong", "malformed"}
 =============================================================================
